@@ -2,7 +2,8 @@
   L4: byte-level models of the codecs the harness runs:
   * `fixedCodec`   — the harness's hand-written fixed-width codec,
   * `postcardCodec` — `foca::PostcardCodec` on `Header<VId>` / `Member<VId>` (serde derive, LEB128 varints),
-  * `bincodeCodec` — `foca::BincodeCodec(bincode::config::standard())` (marker varints, little endian).
+  * `bincodeCodec` — `foca::BincodeCodec(bincode::config::standard())` (marker varints, little endian),
+  * `packedCodec` — the harness's hand-written variable-width codec with the shortest possible headers.
   The identity type `VId { addr: u16, gen: u16 }` serialises its two fields in order.
 -/
 import FocaModel.Basic
@@ -218,5 +219,108 @@ def bincodeInt : IntCodec :=
     encTag := bincodeEnc, decTag := bincodeDecU32 }
 
 def bincodeCodec : Codec := mkCodec bincodeInt
+
+/-! ### packed: a hand-written codec with the shortest headers a codec can reasonably have (small identities
+    in one byte, small incarnations in one byte): a Feed header is 4 bytes. Exercises everything in the sending
+    path that estimates sizes from the header length. -/
+
+def packedEncId (i : Id) : Bytes :=
+  if i.addr < 15 && i.gen < 16 then [i.addr * 16 + i.gen] else [255] ++ u16be i.addr ++ u16be i.gen
+
+def packedDecId : Bytes → Option (Id × Bytes)
+  | [] => none
+  | a :: r =>
+    if a == 255 then
+      match r with
+      | x :: y :: z :: w :: r' => some (⟨x * 256 + y, z * 256 + w⟩, r')
+      | _ => none
+    else some (⟨a / 16, a % 16⟩, r)
+
+def packedEncInc (n : Nat) : Bytes := if n < 255 then [n] else [255] ++ u16be n
+
+def packedDecInc : Bytes → Option (Nat × Bytes)
+  | [] => none
+  | a :: r =>
+    if a == 255 then
+      match r with
+      | x :: y :: r' => some (x * 256 + y, r')
+      | _ => none
+    else some (a, r)
+
+def packedEncMsg : Msg → Bytes
+  | .ping n => [0, n % 256]
+  | .ack n => [1, n % 256]
+  | .pingReq t n => [2] ++ packedEncId t ++ [n % 256]
+  | .indirectPing o n => [3] ++ packedEncId o ++ [n % 256]
+  | .indirectAck t n => [4] ++ packedEncId t ++ [n % 256]
+  | .forwardedAck o n => [5] ++ packedEncId o ++ [n % 256]
+  | .announce => [6]
+  | .feed => [7]
+  | .gossip => [8]
+  | .broadcast => [9]
+  | .turnUndead => [10]
+
+def packedDecIdNum (b : Bytes) : Option (Id × Nat × Bytes) :=
+  match packedDecId b with
+  | none => none
+  | some (i, b1) =>
+    match b1 with
+    | [] => none
+    | n :: b2 => some (i, n, b2)
+
+def packedDecMsg : Bytes → Option (Msg × Bytes)
+  | [] => none
+  | t :: b1 =>
+    match t with
+    | 0 => (decRawU8 b1).map fun (n, r) => (.ping n, r)
+    | 1 => (decRawU8 b1).map fun (n, r) => (.ack n, r)
+    | 2 => (packedDecIdNum b1).map fun (i, n, r) => (.pingReq i n, r)
+    | 3 => (packedDecIdNum b1).map fun (i, n, r) => (.indirectPing i n, r)
+    | 4 => (packedDecIdNum b1).map fun (i, n, r) => (.indirectAck i n, r)
+    | 5 => (packedDecIdNum b1).map fun (i, n, r) => (.forwardedAck i n, r)
+    | 6 => some (.announce, b1)
+    | 7 => some (.feed, b1)
+    | 8 => some (.gossip, b1)
+    | 9 => some (.broadcast, b1)
+    | 10 => some (.turnUndead, b1)
+    | _ => none
+
+def packedEncHeader (h : Header) : Bytes :=
+  packedEncId h.src ++ packedEncInc h.srcInc ++ packedEncId h.dst ++ packedEncMsg h.msg
+
+def packedDecHeader (b : Bytes) : Option (Header × Bytes) :=
+  match packedDecId b with
+  | none => none
+  | some (src, b1) =>
+    match packedDecInc b1 with
+    | none => none
+    | some (inc, b2) =>
+      match packedDecId b2 with
+      | none => none
+      | some (dst, b3) =>
+        match packedDecMsg b3 with
+        | none => none
+        | some (m, b4) => some (⟨src, inc, dst, m⟩, b4)
+
+def packedEncMember (m : Member) : Bytes := packedEncId m.id ++ packedEncInc m.inc ++ [stTag m.st]
+
+def packedDecMember (b : Bytes) : Option (Member × Bytes) :=
+  match packedDecId b with
+  | none => none
+  | some (i, b1) =>
+    match packedDecInc b1 with
+    | none => none
+    | some (inc, b2) =>
+      match b2 with
+      | [] => none
+      | t :: b3 =>
+        match stOfTag t with
+        | none => none
+        | some st => some (⟨i, inc, st⟩, b3)
+
+/-- checks the space up front: a failed `encode_member` writes nothing -/
+def packedCodec : Codec :=
+  { encHeader := packedEncHeader, decHeader := packedDecHeader, encMember := packedEncMember,
+    decMember := packedDecMember, failUse := fun _ _ => 0 }
 
 end Foca
